@@ -38,16 +38,28 @@ extern void *__real_malloc(size_t);
 wchar_t *GetEnvironmentStringsW(void) { wchar_t *c = __real_malloc(sizeof(wchar_t) * (size_t) (parent_len + 2)); memcpy(c, parent_block, sizeof(wchar_t) * (size_t) (parent_len + 2)); return c; }
 BOOL FreeEnvironmentStringsW(wchar_t *p) { free(p); return 1; }
 
+/* UTF-8 -> UTF-16 for one- and two-byte sequences (all the enumerations use); anything else is invalid input: refused when
+ * validation is asked for (as utf.windows.c does), replaced by U+FFFD otherwise */
+static int utf8_decode(const char *s, int len, wchar_t *out, int *bad)
+{
+  int n = 0; *bad = 0;
+  for (int i = 0; i < len; ) {
+    unsigned char c = (unsigned char) s[i];
+    if (c < 0x80) { if (out) out[n] = (wchar_t) c; n++; i++; }
+    else if (c >= 0xC2 && c <= 0xDF && i + 1 < len && ((unsigned char) s[i + 1] & 0xC0) == 0x80) { if (out) out[n] = (wchar_t) (((c & 0x1F) << 6) | ((unsigned char) s[i + 1] & 0x3F)); n++; i += 2; }
+    else { *bad = 1; if (out) out[n] = 0xFFFD; n++; i++; }
+  }
+  return n;
+}
 int MultiByteToWideChar(UINT cp, DWORD flags, LPCCH s, int n, LPWSTR out, int outn)
 {
   (void) cp;
-  int len = n < 0 ? (int) strlen(s) + 1 : n;
-  /* the enumerations are ASCII; a byte >= 0x80 here is a lone byte that is not valid UTF-8: refused when validation is asked for */
-  if (flags & MB_ERR_INVALID_CHARS) for (int i = 0; i < len; i++) if ((unsigned char) s[i] >= 0x80) { SetLastError(1113 /* ERROR_NO_UNICODE_TRANSLATION */); return 0; }
-  if (!out || outn == 0) return len;
-  if (outn < len) { SetLastError(ERROR_INSUFFICIENT_BUFFER); return 0; }
-  for (int i = 0; i < len; i++) out[i] = (wchar_t) (unsigned char) s[i];
-  return len;
+  int len = n < 0 ? (int) strlen(s) + 1 : n, bad;
+  int need = utf8_decode(s, len, NULL, &bad);
+  if (bad && (flags & MB_ERR_INVALID_CHARS)) { SetLastError(1113 /* ERROR_NO_UNICODE_TRANSLATION */); return 0; }
+  if (!out || outn == 0) return need;
+  if (outn < need) { SetLastError(ERROR_INSUFFICIENT_BUFFER); return 0; }
+  return utf8_decode(s, len, out, &bad);
 }
 
 /* what CreateProcessW saw */
@@ -219,13 +231,14 @@ int main(int argc, char **argv)
     cur_fault = 100; run_case(aok, 0, exbad, pe1); run_case(aok, 1, exbad, pe1); run_case(abad, 0, ex1, pe1);
     cur_fault = 0;
   } else if (!strcmp(mode, "env")) {
-    static const char *E[] = { "a=a", "a=", "=a", "a", " =a a", "aa==", "a= " };
+    static const char *E[] = { "a=a", "caf\xC3\xA9=\xC3\xBC", "a=", "=a", "a", " =a a", "\xC2\xA3=a= " };   /* (two entries with two-byte UTF-8 sequences: bytes and UTF-16 units differ) */
     static const char *P[] = { "P=1", "Q= q", "=C:=x" };
     for (int envb = 0; envb <= 1; envb++) for (int np = 0; np <= 3; np++) for (int mask = 0; mask < 128; mask += (np == 2 ? 1 : 9)) {
       const char *pe[4] = { 0 }; for (int i = 0; i < np; i++) pe[i] = P[i];
       const char *ex[8] = { 0 }; int n = 0; for (int b = 0; b < 7; b++) if (mask & (1 << b)) ex[n++] = E[b];
       const char *a[] = { "prog", NULL };
       run_case(a, envb, ex, pe);
+      if (mask == 0) { const char *au[] = { "prog", "caf\xC3\xA9 x", "\xC2\xA3", NULL }; run_case(au, envb, ex, pe); }
       if (mask == 0) run_case(a, envb, NULL, pe);
     }
   } else if (!strcmp(mode, "random")) {
